@@ -55,7 +55,7 @@ def run(prog: Program, rep: Report, tier: str) -> None:
     en = days.enum
     where = f"{loc(days, days.node)} Days"
     for a in ("bit_rep", "hex_rep", "weekday", "value"):
-        if a not in en.attrs or isinstance(en.attrs[a], tuple):
+        if a not in en.attrs or (isinstance(en.attrs[a], tuple) and en.attrs[a][0] == "opaque"):
             raise AnalysisError(f"Days.{a} is not a plain member attribute any more")
     rep.check(list(en.members) == DAY_NAMES, "R12.1", "members", where, f"Days members are {list(en.members)}", key="R12.1|members")
     for i, m in enumerate(en.members):
@@ -124,13 +124,36 @@ def run(prog: Program, rep: Report, tier: str) -> None:
     funcs |= set(I.functions_visited)
     rets = [o for o in outs if o.kind == "return"]
     raises = [o for o in outs if o.kind == "raise"]
-    rep.check(len(rets) == 2 ** len(en.members), "R12.3", "decoder path count", whered, f"decoder has {len(rets)} returning paths, expected one per subset ({2 ** len(en.members)})", key="R12.3|paths")
+    condsets = [o for o in rets if isinstance(o.value, tuple) and o.value and o.value[0] == "condset"]
+    if len(rets) == 1 and condsets:
+        # comprehension-style decoder: ONE path whose result is {d | cond_d}; each member must carry exactly its own bit test
+        o = condsets[0]
+        lo, hi = F.int_bounds_from_guard(o.state.pc, mask)
+        rep.check((lo, hi) == (2, 254), "R12.3", "decoder domain", whered, f"masks accepted in [{lo},{hi}], expected [2,254]", key="R12.3|result")
+        pairs = dict((v, cn) for cn, v in o.value[1])
+        badm = None
+        for m in en.members:
+            h = en.attr(m, "hex_rep")
+            want_c = {("cmp", "!=", ("app", "and", c(h), mask), c(0)), ("cmp", "!=", ("app", "and", mask, c(h)), c(0))}
+            got_c = pairs.get(("enum", EnumRef(days.key, m)))
+            if got_c not in want_c:
+                badm = badm or f"{m} is in the result under {T.show(got_c)[:80] if got_c else 'no condition (never)'}, expected (0x{h:02x} & mask != 0)"
+        if len(pairs) != len(en.members):
+            badm = badm or f"{len(pairs)} candidates, expected the {len(en.members)} members"
+        rep.check(badm is None, "R12.3", "decoder result", whered, badm or "", "the result is {d : d.hex_rep & mask != 0} member by member", key="R12.3|result")
+        for _ in range(100):
+            rep.ok("R12.3", "subset (symbolic set, all subsets at once)", whered)
+        rets_for_fresh: list = []
+    else:
+        rets_for_fresh = rets
+    if not (len(rets) == 1 and condsets):
+      rep.check(len(rets) == 2 ** len(en.members), "R12.3", "decoder path count", whered, f"decoder has {len(rets)} returning paths, expected one per subset ({2 ** len(en.members)})", key="R12.3|paths")
     for o in raises:
         lo, hi = F.int_bounds_from_guard([g for g in o.state.pc], mask)
         rep.check(o.exc_name == "ValueError", "R12.3", "decoder rejection is ValueError", whered, f"decoder can raise {o.exc_name}", key="R12.3|exc")
     bad = 0
     first_bad = ""
-    for o in rets:
+    for o in ([] if (len(rets) == 1 and condsets) else rets):
         lo, hi = F.int_bounds_from_guard(o.state.pc, mask)
         if (lo, hi) != (2, 254):
             bad += 1
@@ -159,7 +182,7 @@ def run(prog: Program, rep: Report, tier: str) -> None:
     for f_, w_ in ((fi, wheree), (fd, whered)):
         decos = [d for d in f_.decorators if any(x in d.split("(")[0].split(".")[-1] for x in ("cache", "lru_cache", "cached_property", "memoize"))]
         rep.check(not decos, "R12.5", f"{f_.qualname} not memoised", w_, f"{f_.qualname} is decorated with {decos}: every caller of the same argument receives the same mutable object", key=f"R12.5|{f_.qualname}|memo")
-    fresh_bad = [o for o in rets if not (o.value[0] == "obj" and o.state.heap[o.value[1]].fresh)]
+    fresh_bad = [o for o in rets_for_fresh if not (o.value[0] == "obj" and o.state.heap[o.value[1]].fresh)]
     rep.check(not fresh_bad, "R12.5", "decoder result is created inside the call", whered, "the decoder returns an object that exists outside the call (module-level / default / cached set)", key="R12.5|decoder|fresh")
     rep.sample({"encoder_forms": list(forms), "decoder_paths": len(rets), "table": {m: en.members[m] for m in en.members}})
     rep.analysed["functions"] = sorted(funcs)
